@@ -143,7 +143,7 @@ def rule_total(program, ctx):
         "C13.total",
         "BaseStorage.subscribe: with `sub.start()` and sentinel-put nodes removed the normal exit is unreachable; explicit raises "
         "are StorageError/AuthenticationError and start_client's per-message try answers both with a NOTICE frame",
-        floor=3,
+        floor=2,
     )
     fn = program.func("nostr_relay.storage.base:BaseStorage.subscribe")
     cfg = cfg_of(fn)
@@ -195,7 +195,7 @@ def rule_limit(program, ctx):
         "C13.limit",
         "BaseStorage.subscribe: the registry insertion is reachable only via the non-raising edge of a test comparing "
         "len(<the same dict>) >=/== Config.subscription_limit; before that test the dict is mutated only by unsubscribe of the same id",
-        floor=2,
+        floor=1,
     )
     fn = program.func("nostr_relay.storage.base:BaseStorage.subscribe")
     cfg = cfg_of(fn)
@@ -308,7 +308,7 @@ def rule_cancel(program, ctx):
         "BaseStorage.unsubscribe(client, sub_id): cancel() of the subscription before its deletion; whole-client form deletes the "
         "registry entry; BaseSubscription.cancel cancels the query task; start_client finally: unsubscribe(client_id), "
         "send_task.cancel() and await send_task",
-        floor=5,
+        floor=3,
     )
     fn = program.func("nostr_relay.storage.base:BaseStorage.unsubscribe")
     cfg = cfg_of(fn)
@@ -363,7 +363,7 @@ def rule_sender(program, ctx):
         "web.send_subscriptions: (sub_id, event) dequeued together; event None -> frame containing the constant EOSE and that sub_id; "
         "otherwise event_as_json(sub_id, event); no path from the dequeue back to the loop head avoids ws_send unless it has "
         "established `event is not None` (a sentinel is never dropped)",
-        floor=3,
+        floor=2,
     )
     fn = program.func("nostr_relay.web:send_subscriptions")
     cfg = cfg_of(fn)
@@ -403,6 +403,20 @@ def rule_sender(program, ctx):
                            "(the path has not established `event is not None`)", path=cfg.describe_path(path)))
     else:
         ctx.ok(rid, cfg.ast_of(sends[0]), "every dequeued sentinel reaches ws_send")
+    # the frame sent is built from the pair dequeued in this iteration
+    from ..core import stmt_assigns
+    for sn in sends:
+        st = cfg.ast_of(sn)
+        c = next(c for c in own_calls(st) if call_name(c) == "ws_send")
+        if c.args and isinstance(c.args[0], ast.Name):
+            var = c.args[0].id
+            defs = [n for n, d in cfg.g.nodes(data=True) if d["ast"] is not None and d["kind"] == "stmt" and var in stmt_assigns(d["ast"])]
+            path = cfg.find_path(list(cfg.succ(deq, kinds=NORMAL)), [sn], avoid_nodes=defs, kinds=NORMAL)
+            if path:
+                ctx.bad(finding_at(P, rid, st, f"`{var}` can reach ws_send without having been rebuilt from the pair just dequeued: the frame of an earlier item (another "
+                                   "subscription's id, or an EOSE) is sent again", path=cfg.describe_path(path), text="stale frame"))
+            else:
+                ctx.ok(rid, st, f"`{var}` is rebuilt from the dequeued pair on every path to ws_send")
     # mapping of the two branches
     msg_assigns = [s for s in walk_no_nested(fn) if isinstance(s, ast.Assign) and isinstance(s.targets[0], ast.Name) and s.targets[0].id == "message"]
     eose = [s for s in msg_assigns if any(isinstance(k, ast.Constant) and isinstance(k.value, str) and "EOSE" in k.value for k in ast.walk(s.value))]
@@ -499,12 +513,13 @@ MUTANTS = [
     M("c13-replace-dropped", BASE, "        if sub_id in subs:\n            await self.unsubscribe(client_id, sub_id)\n\n", "", "C13.replace"),
     M("c13-unsubscribe-no-cancel", BASE, "                self.clients[client_id][sub_id].cancel()\n", "", "C13.cancel"),
     M("c13-finally-no-unsubscribe", WEB, "    finally:\n        await storage.unsubscribe(client_id)\n", "    finally:\n", "C13.cancel"),
-    M("c13-sender-eose-wrong-id", WEB, "message = f'[\"EOSE\",\"{sub_id}\"]'", "message = '[\"EOSE\",\"\"]'", "C13.sender"),
+    M("c13-sender-eose-wrong-id", WEB, "message = json_dumps([\"EOSE\", sub_id])", "message = json_dumps([\"EOSE\", \"\"])", "C13.sender"),
+    M("c13-sender-stale-frame", WEB, "            if event is not None:\n                message = event_as_json(sub_id, event)\n            else:", "            if event is not None and event is not last:\n                message = event_as_json(sub_id, event)\n            elif event is None:", "C13.sender"),
     M("c13-sender-drops-none", WEB, "            sub_id, event = await get_from_storage()\n", "            sub_id, event = await get_from_storage()\n            if not event:\n                continue\n", "C13.sender"),
 ]
 
 EQUIVS = [
     E("c13-eq-sender-is-none-first", WEB,
-      "            if event is not None:\n                message = event_as_json(sub_id, event)\n            else:\n                # done with stored events\n                message = f'[\"EOSE\",\"{sub_id}\"]'",
-      "            if event is None:\n                message = f'[\"EOSE\",\"{sub_id}\"]'\n            else:\n                message = event_as_json(sub_id, event)"),
+      "            if event is not None:\n                message = event_as_json(sub_id, event)\n            else:\n                # done with stored events\n                message = json_dumps([\"EOSE\", sub_id])",
+      "            if event is None:\n                message = json_dumps([\"EOSE\", sub_id])\n            else:\n                message = event_as_json(sub_id, event)"),
 ]
